@@ -84,7 +84,7 @@ func collectNames(f *File) *modelNames {
 	return m
 }
 
-var subLabelRe = regexp.MustCompile(`^(.+)_(\d+)$`)
+var subLabelRe = regexp.MustCompile(`^(.+)_(-?\d+)$`)
 
 // genSubLabel reports whether name is a compiler-generated sub-label of a known entry.
 func (m *modelNames) genSubLabel(name string) bool {
